@@ -19,6 +19,9 @@ CLAIMED = {
     "C04": ("bounded symbolic model checking of the hash commands through the real dispatcher: hashes over a 3-name pool with symbolic membership and "
             "values, HSET/HMSET/HSETNX/HDEL and all read commands against a map model of t_hash.c, HINCRBY for all int64 old values and increments with "
             "exact overflow, HRANDFIELD result shape for counts -3..3 (rand = round-robin from an arbitrary start) and extreme counts", "5/C04"),
+    "C05": ("bounded symbolic model checking of the set commands through the real dispatcher: operand sets over a 3-name universe with symbolic membership "
+            "(missing / wrong-typed / repeated operands, STORE destination among the operands or of another type), against bit-vector set algebra; SMOVE incl. "
+            "source = destination, SREM, SINTERCARD for all int64 limits, SRANDMEMBER shape for counts -3..3 and extreme counts", "5/C05"),
     "C18": ("bounded symbolic model checking: the real bitMath.go kernels are executed symbolically from go/ssa over a 10-byte symbolic array "
             "with all offsets/widths and compared by the solver with a big-endian bit-vector reference", "5/C18"),
 }
